@@ -69,6 +69,30 @@ def check(pid, tier):
     for k, verdict in sorted(bad.items()):
         path = save_replay(pid, {"kind": "connect-trace", "verdict": verdict, "trace": traces[k]}) if len(violations) < 10 else "(not saved)"
         violations.append((pid, f"connect trace rejected: {verdict} end={traces[k]['end']}", path))
+    # components with several inputs and outputs (Connect2.tla): the result of the phase and every
+    # call against the least fixpoint over all ports
+    cases2 = []
+    for f, cap in (("lanes", 2500 if tier == "quick" else None), ("cross", None), ("halfstuck", 1200 if tier == "quick" else None)):
+        got = tlc.emit("Connect2Emit", {"FAMILY": f})
+        ev.cov["runs"].append({"kind": "tlc-case-emission+theorems", "module": "Connect2Emit", "family": f, "cases": len(got)})
+        if cap and len(got) > cap:
+            got = rng.sample(got, cap)
+            ev.cov["exhaustive"] = False
+        cases2 += got
+    tr2 = run_cases("connect2_run", "run_case", cases2)
+    herr = [t for t in tr2 if "harness_error" in t]
+    if herr:
+        machinery.append(f"{len(herr)} harness errors (multi-port), first: {herr[0]['harness_error']}")
+        tr2 = [t for t in tr2 if "harness_error" not in t]
+    acc, tot, bad, gen, _ = tlc.validate("Connect2_Trace", tr2)
+    ev.add_traces("Connect2_Trace/lanes+cross+halfstuck", acc, tot, gen)
+    outs = {k: sum(1 for t in tr2 if t["end"]["out"] == k) for k in ("ok", "stall")}
+    ev.cov["outcomes_multiport"] = outs
+    if not outs["ok"] or not outs["stall"]:
+        machinery.append("vacuous: multi-port shapes must both connect and stall")
+    for k, verdict in sorted(bad.items()):
+        path = save_replay(pid, {"kind": "connect2-trace", "verdict": verdict, "trace": tr2[k]}) if len(violations) < 10 else "(not saved)"
+        violations.append((pid, f"multi-port connect trace rejected: {verdict} end={tr2[k]['end']}", path))
     # connect phase of whole compositions (late starts, adapters, initial pulls)
     cfgs = (tlc.emit("SchedEmit", {"FAMILY": "pair"}) + tlc.emit("SchedEmit", {"FAMILY": "chain3p"})
             + tlc.emit("SchedEmit", {"FAMILY": "fanoutshared"}) + tlc.emit("SchedEmit", {"FAMILY": "trigger"}))
@@ -98,6 +122,15 @@ def replay(pid, path):
         rp = json.load(f)
     if rp.get("kind") == "sched-trace":
         return check_sched.replay(pid, path)
+    if rp.get("kind") == "connect2-trace":
+        from .fn_engine import _run
+        t = _run(("connect2_run", "run_case", rp["trace"]["cfg"]))
+        _, _, bad, _, _ = tlc.validate("Connect2_Trace", [t])
+        if bad:
+            print(f"VIOLATION property={pid} replay={path}  # {bad[0]}")
+            return 1
+        print("replayed trace accepted")
+        return 0
     if rp.get("kind") != "connect-trace":
         print(rp.get("output", "")[-3000:])
         return 0
